@@ -12,6 +12,7 @@ import (
 	"math/rand"
 	"os"
 	"path/filepath"
+	"runtime"
 	"sort"
 	"strconv"
 	"strings"
@@ -77,19 +78,51 @@ type countResult struct {
 }
 
 // runScenario executes a whole scenario with the traced phase launched as l.
-func runScenario(sc *Scenario, cfg Config, root, work string, seed int64, l Launch, logf func(string, ...any)) (*World, int, error) {
-	w, err := NewWorld(root, work, cfg, seed, logf)
-	if err != nil {
-		return nil, 0, err
-	}
-	w.LaunchFor = func(phase int, traced bool) Launch {
+// snap: directory of a prelude snapshot to start from (used when it exists) or,
+// with save=true, to write once the prelude has been executed.
+func runScenario(sc *Scenario, cfg Config, root, work string, seed int64, l Launch, snap string, save bool, logf func(string, ...any)) (*World, int, error) {
+	launch := func(phase int, traced bool) Launch {
 		if traced {
 			return l
 		}
 		return Launch{Mode: Plain}
 	}
-	at, err := w.Run(sc.Steps, 0)
+	ts := sc.TracedStart()
+	if ts > 0 && snap != "" && !save {
+		if _, err := os.Stat(filepath.Join(snap, "meta.json")); err == nil {
+			w, err := NewWorldFromPrelude(snap, root, work, cfg, seed, logf)
+			if err != nil {
+				return w, 0, fmt.Errorf("prelude snapshot: %w", err)
+			}
+			w.LaunchFor = launch
+			at, err := w.Run(sc.Steps, ts)
+			return w, at, err
+		}
+	}
+	w, err := NewWorld(root, work, cfg, seed, logf)
+	if err != nil {
+		return nil, 0, err
+	}
+	w.LaunchFor = launch
+	if ts > 0 && save && snap != "" {
+		at, err := w.Run(sc.Steps[:ts], 0)
+		if err != nil {
+			return w, at, err
+		}
+		if err := w.SavePrelude(snap); err != nil {
+			return w, ts, fmt.Errorf("save prelude: %w", err)
+		}
+	}
+	from := 0
+	if ts > 0 && save && snap != "" {
+		from = ts
+	}
+	at, err := w.Run(sc.Steps, from)
 	return w, at, err
+}
+
+func preludeDir(run *vf.Run, sc, cfg string) string {
+	return filepath.Join(run.Scratch, fmt.Sprintf("prelude-%s-%s", sc, cfg))
 }
 
 func dataSeed(seed int64, sc string) int64 { return vf.SubSeed(seed, "C03-data", sc) }
@@ -105,7 +138,7 @@ func countRun(run *vf.Run, sc *Scenario, cfg Config) *countResult {
 	}
 	var hist []string
 	w, _, err := runScenario(sc, cfg, filepath.Join(base, "s"), filepath.Join(base, "w"), dataSeed(run.Seed, sc.Name), Launch{Mode: Count, Log: logPath},
-		func(f string, a ...any) { hist = append(hist, fmt.Sprintf(f, a...)) })
+		preludeDir(run, sc.Name, cfg.Name), true, func(f string, a ...any) { hist = append(hist, fmt.Sprintf(f, a...)) })
 	if w != nil {
 		defer w.Close()
 	}
@@ -122,29 +155,36 @@ func countRun(run *vf.Run, sc *Scenario, cfg Config) *countResult {
 	return r
 }
 
-// boundaries returns the indices (1-based) that are rename/unlink/fsync calls,
-// the first write to a file after its creation, or file creations.
+// boundaries returns the indices (1-based) of the calls at which the visible
+// state changes shape: every rename, every unlink of a final name, every
+// fsync/fdatasync outside SQLite's own files, every file creation and the
+// first write to a file after its creation.
 func boundaries(root string, evs []SysEvent) map[int]bool {
 	out := map[int]bool{}
 	written := map[string]bool{}
 	for _, e := range evs {
+		c := PathClass(root, e.P1)
 		switch e.Name {
-		case "rename", "renameat", "unlink", "unlinkat", "rmdir", "fsync", "fdatasync", "ftruncate", "utimensat", "mkdir", "mkdirat":
+		case "rename", "renameat":
 			out[e.N] = true
-			if strings.HasPrefix(e.Name, "rename") {
-				written[e.P2] = written[e.P1]
-				delete(written, e.P1)
+			written[e.P2] = written[e.P1]
+			delete(written, e.P1)
+		case "unlink", "unlinkat", "rmdir":
+			if !strings.HasSuffix(c, "-tmp") && c != "db" {
+				out[e.N] = true
 			}
-			if strings.HasPrefix(e.Name, "unlink") {
-				delete(written, e.P1)
+			delete(written, e.P1)
+		case "fsync", "fdatasync":
+			if c != "db" {
+				out[e.N] = true
 			}
 		case "openat", "open", "creat", "openat2":
-			if e.Flags&uint64(os.O_CREATE|os.O_TRUNC) != 0 {
+			if e.Flags&uint64(os.O_CREATE|os.O_TRUNC) != 0 && c != "db" {
 				out[e.N] = true
 				delete(written, e.P1)
 			}
 		case "write", "pwrite64", "writev", "pwritev", "pwritev2", "copy_file_range", "sendfile":
-			if !written[e.P1] && PathClass(root, e.P1) != "db" {
+			if !written[e.P1] && c != "db" {
 				out[e.N] = true
 			}
 			written[e.P1] = true
@@ -193,8 +233,6 @@ func cases(run *vf.Run) ([]json.RawMessage, error) {
 			switch sc.Name {
 			case "S2", "S4":
 				jobs = append(jobs, job{sc, Configs[0], "all"})
-			case "S1": // the configuration in which Sync() checkpoints by itself
-				jobs = append(jobs, job{sc, Configs[1], "sample"})
 			default:
 				jobs = append(jobs, job{sc, Configs[0], "sample"})
 			}
@@ -231,7 +269,7 @@ func cases(run *vf.Run) ([]json.RawMessage, error) {
 			for n := range b {
 				pick[n] = "boundary"
 			}
-			// PRNG sample of the rest: one in ten, at least 10
+			// PRNG sample of the rest: one in twenty, at least 6
 			rng := rand.New(rand.NewSource(vf.SubSeed(run.Seed, "C03-sample", j.sc.Name, j.cfg.Name)))
 			var rest []int
 			for n := 1; n <= m; n++ {
@@ -240,9 +278,9 @@ func cases(run *vf.Run) ([]json.RawMessage, error) {
 				}
 			}
 			rng.Shuffle(len(rest), func(a, b int) { rest[a], rest[b] = rest[b], rest[a] })
-			k := len(rest) / 10
-			if k < 10 {
-				k = 10
+			k := len(rest) / 20
+			if k < 6 {
+				k = 6
 			}
 			if k > len(rest) {
 				k = len(rest)
@@ -277,6 +315,7 @@ func configByName(n string) (Config, bool) {
 // one kill run
 
 func runCase(run *vf.Run, raw json.RawMessage, dir string) *vf.Result {
+	procsOnce.Do(func() { runtime.GOMAXPROCS(2) }) // the worker mostly waits for its victim
 	res := &vf.Result{}
 	var s spec
 	if err := json.Unmarshal(raw, &s); err != nil {
@@ -298,7 +337,7 @@ func runCase(run *vf.Run, raw json.RawMessage, dir string) *vf.Result {
 	res.Sig = fmt.Sprintf("%s/%s/%d", s.Scenario, s.Cfg, s.N)
 	res.Logf("scenario %s (%s) config %s: kill before fs-mutating syscall %d of %d (count run saw %s there)", sc.Name, sc.Doc, cfg.Name, s.N, s.M, s.Expect)
 
-	w, at, err := runScenario(sc, cfg, root, work, s.DataSeed, Launch{Mode: Kill, KillN: s.N, Log: logPath}, res.Logf)
+	w, at, err := runScenario(sc, cfg, root, work, s.DataSeed, Launch{Mode: Kill, KillN: s.N, Log: logPath}, preludeDir(run, sc.Name, cfg.Name), false, res.Logf)
 	if w != nil {
 		defer w.Close()
 	}
@@ -379,6 +418,7 @@ func readReplica(rep string) *litestream.Replica {
 	return litestream.NewReplicaWithClient(nil, c)
 }
 
+var procsOnce sync.Once
 var restoreN int
 var restoreMu sync.Mutex
 
